@@ -31,13 +31,15 @@ def stepM (op : Op) : M Unit := do
   match op with
   | .start =>
     let desc ← iterWatchers true
-    let r ← syncCoroutine "arbiter_start_watchers" (.arbStartWatchers desc) [.watch]
-    match r with | .error _ => emit .conflict | .ok _ => pure ()
+    modS fun s => { s with doneVals := [] }
+    let r ← syncCoroutine "arbiter_start_watchers" (.arbStartWatchers desc) []
+    match r with | .error _ => emit .conflict | .ok tid => addDoneCallback tid .watch
   | .req cid j => handleMessage (some cid) j
   | .sigreq q => handleMessage none (some (if q then quitMsg else reloadMsg))
   | .check =>
-    let r ← syncCoroutine "manage_watchers" .manageWatchers [.watch]
-    match r with | .error _ => emit .conflict | .ok _ => pure ()
+    modS fun s => { s with doneVals := [] }
+    let r ← syncCoroutine "manage_watchers" .manageWatchers []
+    match r with | .error _ => emit .conflict | .ok tid => addDoneCallback tid .watch
   | .wake =>
     let s ← getS
     match earliest s.sleepers with
@@ -45,7 +47,7 @@ def stepM (op : Op) : M Unit := do
     | some sl =>
       modS fun s => { s with sleepers := s.sleepers.filter (·.sid ≠ sl.sid),
                              k := ({ s.k with now := max s.k.now sl.deadline }).resolve }
-      exec fuelDefault (.resume .pass .unit sl.waiter)
+      deliver (exec fuelDefault) sl.waiter .unit
   | .adv ms =>
     modS fun s =>
       let lim := (s.sleepers.map (·.deadline)).foldl min (s.k.now + ms)
@@ -53,7 +55,7 @@ def stepM (op : Op) : M Unit := do
   | .die pid st => modS fun s => { s with k := s.k.die pid st }
   | .xkill pid sig => do let _ ← kKill pid sig "x"
   | .fault k pid st => modS fun s => { s with k := { s.k with faults := s.k.faults ++ [(k, pid, st)] } }
-  flushDeferred
+  settle 100000
 
 def step (s : State) (op : Op) : State := (stepM op s).2
 
@@ -102,7 +104,11 @@ def snapshot (s : State) : String :=
     s!"{encS w.name}:{statusName w.status}:{w.np}:{orDash (",".intercalate procs)}"
   let names := sortStr (s.a.names.map (·.1))
   let sl := (s.sleepers.foldr insertSl []).map fun x => toString ((x.deadline : Int) - (s.k.now : Int))
-  let kp := s.k.snapshot.map fun (p : Nat × PState) => s!"{p.1}:{showP p.2}"
+  let kp := s.k.snapshot.map fun (p : Nat × PState × Option Nat) =>
+    let killed : Bool := match s.k.find p.1 with
+      | some kp => kp.st = .run && (match kp.doom with | some (_, 9) => true | _ => false)
+      | none => false
+    s!"{p.1}:{if killed then "k" else showP p.2.1}:{match p.2.2 with | some q => toString q | none => "-"}"
   s!"s {s.a.slot.getD "-"} {if s.a.stopping then 1 else 0}{if s.a.restarting then 1 else 0} | " ++
   s!"{orDash (" ".intercalate (ws.map showW))} | {orDash (",".intercalate (names.map encS))} | " ++
   s!"{orDash (",".intercalate sl)} | {orDash (",".intercalate kp)} | t={s.k.now}"
